@@ -173,6 +173,8 @@ import BGV
 #print axioms BGV.C13_written_line
 #print axioms BGV.C13_dir_roundtrip
 #print axioms BGV.C13_und_roundtrip
+#print axioms BGV.C13_named_numbering
+#print axioms BGV.C13_named_line
 
 -- C14
 #print axioms BGV.C14_layout
